@@ -139,7 +139,7 @@ func parseArgsWithExpiration(args map[string]any, defaultHandler func(name strin
 		case "expiration.milliseconds", "milliseconds":
 			expiration = now.Add(time.Millisecond*time.Duration(arg.(int64)) - time.Nanosecond)
 		case "expiration.unix-time-seconds":
-			expiration = time.Unix(arg.(int64), 0)
+			expiration = time.Unix(arg.(int64), 0).Add(time.Duration(now.Nanosecond()) - time.Nanosecond)
 		case "expiration.unix-time-milliseconds":
 			n := arg.(int64)
 			expiration = time.Unix(n/1000, (n%1000)*(1000*1000))
